@@ -25,6 +25,8 @@ pub struct Args {
     pub threads: usize,
     pub replay: Option<String>,
     pub run_index: Option<u64>,
+    /// index of the first run of the batch (sub-ranges are used by abort containment)
+    pub first_run: u64,
     pub write_evidence: bool,
     pub log_hashes: bool,
     pub max_seconds: Option<u64>,
@@ -107,7 +109,7 @@ pub fn run_batch(prop: &dyn Prop, args: &Args, runs: u64) -> BatchResult {
                     if start >= runs {
                         break;
                     }
-                    for run in start..(start + CHUNK).min(runs) {
+                    for run in (args.first_run + start)..(args.first_run + (start + CHUNK).min(runs)) {
                         let seed = run_seed(args.seed, run);
                         let sc = prop.generate(seed, run);
                         watchdog::set_run(run);
@@ -331,6 +333,9 @@ pub fn minimise(prop: &dyn Prop, sc: &Scenario, want: &Violation) -> (Scenario, 
 // replay files
 // ---------------------------------------------------------------------------------------
 
+/// set by the supervisor: it must never execute the code under test itself
+pub static NO_ANSWERS: AtomicBool = AtomicBool::new(false);
+
 pub fn write_replay(args: &Args, sc: &Scenario, v: &Violation, original_ops: usize, minimised: bool) -> String {
     let dir = std::env::var("AISSIM_REPLAY_DIR").unwrap_or_else(|_| format!("{}/replays", verif_dir()));
     let _ = std::fs::create_dir_all(&dir);
@@ -347,7 +352,7 @@ pub fn write_replay(args: &Args, sc: &Scenario, v: &Violation, original_ops: usi
     );
     // what the real code answered, for the reader (std build; informational)
     let mut answers: Vec<J> = Vec::new();
-    if sc.stream.is_none() {
+    if sc.stream.is_none() && !NO_ANSWERS.load(std::sync::atomic::Ordering::Relaxed) {
         props::run_lines(
             nodes::Build::Std,
             sc,
@@ -758,4 +763,169 @@ pub fn cmd_replay(prop: &dyn Prop, _args: &Args, path: &str) -> i32 {
             0
         }
     }
+}
+
+// ---------------------------------------------------------------------------------------
+// abort containment: the batch runs in a child process; if the child is killed by a signal
+// (segfault after memory corruption, abort, stack overflow) the supervisor - which never
+// executes the code under test - narrows the death down to one run and one operation prefix
+// ---------------------------------------------------------------------------------------
+
+fn child_dies(argv: &[String]) -> Option<bool> {
+    let exe = std::env::current_exe().ok()?;
+    let st = std::process::Command::new(exe)
+        .args(argv)
+        .env("AISSIM_CHILD", "1")
+        .stdout(std::process::Stdio::null())
+        .stderr(std::process::Stdio::null())
+        .status()
+        .ok()?;
+    Some(match st.code() {
+        Some(c) => c >= 126,
+        None => true,
+    })
+}
+
+pub fn supervise(args: &Args, argv: &[String]) -> i32 {
+    let exe = match std::env::current_exe() {
+        Ok(e) => e,
+        Err(e) => {
+            eprintln!("check: HARNESS ERROR: {}", e);
+            return 2;
+        }
+    };
+    let st = match std::process::Command::new(&exe).args(&argv[1..]).env("AISSIM_CHILD", "1").status() {
+        Ok(s) => s,
+        Err(e) => {
+            eprintln!("check: HARNESS ERROR: cannot spawn worker process: {}", e);
+            return 2;
+        }
+    };
+    if let Some(c) = st.code() {
+        if c < 126 {
+            return c;
+        }
+    }
+    NO_ANSWERS.store(true, Ordering::Relaxed);
+    let prop = match props::by_id(&args.prop) {
+        Some(p) => p,
+        None => return 2,
+    };
+    let prop: &dyn Prop = prop.as_ref();
+    println!("worker process died ({:?}): containing", st);
+    if let Some(path) = &args.replay {
+        println!("VIOLATION property={} replay={}", prop.id(), path);
+        println!("  clause=process-killed the process executing this replay was killed ({:?})", st);
+        return 1;
+    }
+    let base: Vec<String> = vec![
+        "check".into(),
+        args.prop.clone(),
+        "--seed".into(),
+        args.seed.to_string(),
+        "--tier".into(),
+        args.tier.clone(),
+        "--no-evidence".into(),
+    ];
+    let total = args.runs.unwrap_or_else(|| default_runs(prop.id(), &args.tier));
+    let range_dies = |a: u64, n: u64| -> bool {
+        let mut v = base.clone();
+        v.extend(["--first-run".into(), a.to_string(), "--runs".into(), n.to_string()]);
+        child_dies(&v).unwrap_or(false)
+    };
+    // find the first run whose execution kills the process
+    let (mut lo, mut len) = (args.first_run, total);
+    if !range_dies(lo, len) {
+        eprintln!("check: HARNESS ERROR: the worker died once but not when re-run; not reproducible");
+        return 2;
+    }
+    while len > 1 {
+        let half = len / 2;
+        if range_dies(lo, half) {
+            len = half;
+        } else {
+            lo += half;
+            len -= half;
+            // (the death must then be in the second half; verified at the end)
+        }
+    }
+    let run = lo;
+    let mut sc = prop.generate(run_seed(args.seed, run), run);
+    let original_ops = sc.ops.len();
+    let tmp = format!(
+        "{}/contain-{}.json",
+        std::env::var("AISSIM_WORK").unwrap_or_else(|_| "/tmp".into()),
+        std::process::id()
+    );
+    let replay_dies = |sc: &Scenario| -> bool {
+        let j = J::obj().set("scenario", sc.to_json());
+        if std::fs::write(&tmp, j.to_string_compact()).is_err() {
+            return false;
+        }
+        child_dies(&["check".into(), args.prop.clone(), "--replay".into(), tmp.clone()]).unwrap_or(false)
+    };
+    if !replay_dies(&sc) {
+        eprintln!(
+            "check: HARNESS ERROR: run {} kills the worker inside a batch but not when replayed alone",
+            run
+        );
+        return 2;
+    }
+    // shortest killing prefix, then drop operations one at a time
+    if sc.stream.is_none() {
+        let (mut a, mut b) = (1usize, sc.ops.len());
+        while a < b {
+            let mid = (a + b) / 2;
+            let mut c = sc.clone();
+            c.ops.truncate(mid);
+            if replay_dies(&c) {
+                b = mid;
+            } else {
+                a = mid + 1;
+            }
+        }
+        sc.ops.truncate(b);
+        let mut i = 0;
+        while i + 1 < sc.ops.len() && sc.ops.len() <= 64 {
+            if prop.droppable(&sc, i) {
+                let mut c = sc.clone();
+                c.ops.remove(i);
+                if replay_dies(&c) {
+                    sc = c;
+                    continue;
+                }
+            }
+            i += 1;
+        }
+    }
+    let _ = std::fs::remove_file(&tmp);
+    let v = Violation {
+        prop: prop.id().into(),
+        clause: "process-killed".into(),
+        at: sc.ops.len().saturating_sub(1),
+        build: "?".into(),
+        detail: format!(
+            "executing this schedule kills the process ({:?}): memory corruption, abort or stack overflow in the code under test",
+            st
+        ),
+        site: "process-killed".into(),
+    };
+    let path = write_replay(args, &sc, &v, original_ops, true);
+    println!("VIOLATION property={} replay={}", prop.id(), path);
+    println!("  clause=process-killed run={} ops={} (from {}) {}", run, sc.ops.len(), original_ops, v.detail);
+    // evidence: what was covered before the killing run
+    if args.write_evidence && run > args.first_run {
+        let mut v2 = base.clone();
+        v2.retain(|a| a != "--no-evidence");
+        v2.extend(["--first-run".into(), args.first_run.to_string(), "--runs".into(), (run - args.first_run).to_string()]);
+        let _ = child_dies(&v2);
+        let ev_path = format!("{}/evidence/{}.json", verif_dir(), prop.id());
+        if let Ok(src) = std::fs::read_to_string(&ev_path) {
+            if let Ok(j) = json::parse(&src) {
+                let j = j.set("violations", J::Int(1));
+                let _ = std::fs::write(&ev_path, j.to_string_pretty());
+            }
+        }
+    }
+    1
 }
